@@ -289,8 +289,8 @@ theorem trim_geo {c : Comp} (h : GeoOK c.segs) :
     · exact ⟨h.dropLast, endOf_dropLast_le h⟩
     · exact ⟨h, Nat.le_refl _⟩
 
-theorem currentStart_snoc (i : Bytes) (l : List Seg) (b : Seg) :
-    ({ input := i, segs := l ++ [b] } : Comp).currentStart = b.start := by
+theorem currentStart_snoc (i : Bytes) (l : List Seg) (b : Seg) {a : Bool} :
+    ({ input := i, segs := l ++ [b], ascii := a } : Comp).currentStart = b.start := by
   unfold Comp.currentStart; simp only [List.getLast?_concat]
 
 theorem currentStart_of_getLast? {c : Comp} {b : Seg} (h : c.segs.getLast? = some b) : c.currentStart = b.start := by
